@@ -9,7 +9,7 @@ use miette::Diagnostic;
 use nodejs_semver::{Range, SemverError, SemverErrorKind, Version};
 use serde_json::json;
 
-pub const RULE: &str = "cases = strings rejected by Version::parse or Range::parse: every rejected string of the exhaustive version alphabet (length <=6 quick / <=8 thorough) and of a range alphabet, one-edit neighbours with multi-byte / newline / NUL characters, multi-line inputs, failures at the first / middle / last component, lengths 255..260 (ASCII and multi-byte endings), numbers at MAX_SAFE_INTEGER±1 and 2^64±1; oracle = input() equals the string passed in, offset() <= len and on a char boundary, span offset = offset, location() = (newlines before offset, bytes since the last newline; a char-counted column is also accepted), all miette Diagnostic accessors return, label span lies inside the source, Narratable/JSON handlers render, kind clauses (MaxLengthError, MaxIntError(value) at the component, ParseIntError, NoValidRanges); non-trivial = the error is not at offset 0 of a single-line ASCII input (offset, line or multi-byte handling matters); distinct = distinct input strings";
+pub const RULE: &str = "cases = strings rejected by Version::parse or Range::parse: every rejected string of the exhaustive version alphabet (length <=6 quick / <=9 thorough) and of a range alphabet, one-edit neighbours with multi-byte / newline / NUL characters, multi-line inputs, failures at the first / middle / last component, lengths 255..260 (ASCII and multi-byte endings), numbers at MAX_SAFE_INTEGER±1 and 2^64±1; oracle = input() equals the string passed in, offset() <= len and on a char boundary, span offset = offset, location() = (newlines before offset, bytes since the last newline; a char-counted column is also accepted), all miette Diagnostic accessors return, label span lies inside the source, Narratable/JSON handlers render, kind clauses (MaxLengthError, MaxIntError(value) at the component, ParseIntError, NoValidRanges); non-trivial = the error is not at offset 0 of a single-line ASCII input (offset, line or multi-byte handling matters); distinct = distinct input strings";
 
 fn pos_class(s: &str, off: usize) -> String {
     let where_ = if off == 0 { "first" } else if off >= s.len() { "end" } else { "middle" };
@@ -263,11 +263,11 @@ pub fn run(ctx: &mut Ctx) {
         }
     }
     ctx.stratum("X-exhaustive-version-alphabet", true);
-    let max_len = ctx.tier.pick(6, 8);
+    let max_len = ctx.tier.pick(6, 9);
     exhaustive(ctx, max_len, &mut |ctx, s| judge(ctx, s));
     ctx.stratum("XR-exhaustive-range-alphabet", true);
     let k = SIGMA_R.len();
-    let rl = ctx.tier.pick(4usize, 5usize);
+    let rl = ctx.tier.pick(4usize, 6usize);
     for len in 0..=rl {
         let total = k.pow(len as u32);
         for blk in 0..((total + 999) / 1000) {
